@@ -1580,6 +1580,7 @@ dfs_search:
             *prev = root;
 
             top_sibling = root;
+            elem = NULL;
             pos = 1;
             goto dfs_search;
         }
